@@ -318,7 +318,7 @@ def snapshot(d):
                 data = b""
             snap[p] = dict(kind="file", size=st.st_size, sha=hashlib.sha256(data).hexdigest(),
                            ino=st.st_ino, mtime_ns=st.st_mtime_ns,
-                           text=data.decode(errors="replace") if len(data) < 20000 else None)
+                           text=data.decode(errors="replace") if len(data) < 4000000 else None)
     return snap
 
 def final_ids(snap, outdir="o"):
